@@ -208,6 +208,9 @@ func multiFile() []*bundleCase {
 	cases = append(cases, gj5s.MixedLanguageCases()...)
 	cases = append(cases, gj5s.ShapeCases()...)
 	for _, c := range cases {
+		if c.ID == "mixed-language:both-ways:object:array" || c.ID == "mixed-language:j5s-uses-proto-other-package:enum:map" {
+			continue // already among the rich bundles
+		}
 		if len(c.P.Files) > 1 {
 			out = append(out, prepare(c))
 		}
